@@ -23,7 +23,7 @@ import (
 func GenC10(seed uint64) *Scenario {
 	r := NewRng(seed, "gen", "C10")
 	s := &Scenario{Prop: "C10", Seed: seed, Family: "storage_surface", Pkg: &PkgDef{Mods: []*ModDef{{Spec: ModSpec{Name: "m0", Kind: "map", FailAt: -1}}}, Output: "m0"}, Head: 1}
-	s.Policy = []Policy{PolicyHashed, PolicyHashed, PolicyClass, PolicyReverse, PolicyCanonical}[r.Intn(5)]
+	s.Policy = []Policy{PolicyHashed, PolicyNode, PolicyClass, PolicyReverse, PolicyCanonical}[r.Intn(5)]
 	s.StallPm = []int{0, 50, 200}[r.Intn(3)]
 	if r.Chance(2, 3) {
 		s.Rates = map[string]int{}
